@@ -628,7 +628,9 @@ cfoldBCall(Foam bcall)
 		if (!cfoldFoldAll) break;
 		assert(foamTag(argv[0]) == FOAM_SInt);
 		assert(foamTag(argv[1]) == FOAM_SInt);
-		if (argv[1]->foamSInt.SIntData == 0) break; /* leave it to run time */
+		if (argv[1]->foamSInt.SIntData == 0 ||
+		    (argv[1]->foamSInt.SIntData == -1 && argv[0]->foamSInt.SIntData == LONG_MIN))
+			break; /* would trap: leave it to run time */
 		foam = foamNewSInt(argv[0]->foamSInt.SIntData %
 				   argv[1]->foamSInt.SIntData);
 		break;
@@ -636,7 +638,9 @@ cfoldBCall(Foam bcall)
 		if (!cfoldFoldAll) break;
 		assert(foamTag(argv[0]) == FOAM_SInt);
 		assert(foamTag(argv[1]) == FOAM_SInt);
-		if (argv[1]->foamSInt.SIntData == 0) break; /* leave it to run time */
+		if (argv[1]->foamSInt.SIntData == 0 ||
+		    (argv[1]->foamSInt.SIntData == -1 && argv[0]->foamSInt.SIntData == LONG_MIN))
+			break; /* would trap: leave it to run time */
 		foam = foamNewSInt(argv[0]->foamSInt.SIntData /
 				   argv[1]->foamSInt.SIntData);
 		break;
@@ -644,7 +648,9 @@ cfoldBCall(Foam bcall)
 		if (!cfoldFoldAll) break;
 		assert(foamTag(argv[0]) == FOAM_SInt);
 		assert(foamTag(argv[1]) == FOAM_SInt);
-		if (argv[1]->foamSInt.SIntData == 0) break; /* leave it to run time */
+		if (argv[1]->foamSInt.SIntData == 0 ||
+		    (argv[1]->foamSInt.SIntData == -1 && argv[0]->foamSInt.SIntData == LONG_MIN))
+			break; /* would trap: leave it to run time */
 		foam = foamNewSInt(argv[0]->foamSInt.SIntData %
 				   argv[1]->foamSInt.SIntData);
 		break;
@@ -662,6 +668,7 @@ cfoldBCall(Foam bcall)
 		assert(foamTag(argv[2]) == FOAM_SInt);
 		if (argv[2]->foamSInt.SIntData == 0) break; /* leave it to run time */
 		n = argv[0]->foamSInt.SIntData + argv[1]->foamSInt.SIntData;
+		if (argv[2]->foamSInt.SIntData == -1 && n == LONG_MIN) break;
 		foam = foamNewSInt(n % argv[2]->foamSInt.SIntData);
 		break;
 	  case FOAM_BVal_SIntMinusMod:
@@ -671,6 +678,7 @@ cfoldBCall(Foam bcall)
 		assert(foamTag(argv[2]) == FOAM_SInt);
 		if (argv[2]->foamSInt.SIntData == 0) break; /* leave it to run time */
 		n = argv[0]->foamSInt.SIntData - argv[1]->foamSInt.SIntData;
+		if (argv[2]->foamSInt.SIntData == -1 && n == LONG_MIN) break;
 		foam = foamNewSInt(n % argv[2]->foamSInt.SIntData);
 		break;
 	  case FOAM_BVal_SIntTimesMod:
@@ -680,6 +688,7 @@ cfoldBCall(Foam bcall)
 		assert(foamTag(argv[2]) == FOAM_SInt);
 		if (argv[2]->foamSInt.SIntData == 0) break; /* leave it to run time */
 		n = argv[0]->foamSInt.SIntData * argv[1]->foamSInt.SIntData;
+		if (argv[2]->foamSInt.SIntData == -1 && n == LONG_MIN) break;
 		foam = foamNewSInt(n % argv[2]->foamSInt.SIntData);
 		break;
 	  case FOAM_BVal_SIntLength:
